@@ -14,6 +14,8 @@ R14.4  directory stream position: on every path from the entry of fd_readdir to 
 R14.5  dirent layout: d_next@0 u64, d_ino@8 u64, d_namlen@16 u32, d_type@20 u8, record size 24, name after the
        record, truncated to the remaining space; bufused = buflen signals a full buffer
 R14.6  error discipline of the path operations
+R14.7  every descriptor issued by path_open records a copy of the resolved path it was opened with (both generations, with and
+       without the DIRECTORY flag): later relative paths and fd_readdir resolve against it
 """
 from .. import astdb, pe, wasi as W, wasi_oracle as O, runtime
 from ..astdb import kids, walk, AnalysisBroken
@@ -484,6 +486,37 @@ def check_strcat_note(chk, tu):
                  'here (needs a filesystem reporting DT_UNKNOWN), therefore recorded as a note, not a finding.' % astdb.loc_str(cats[0]))
 
 
+def check_opened_descriptor_path(chk, tu):
+    """R14.7: relative paths are resolved against the path recorded in the directory descriptor (R14.2) - so every descriptor that
+    path_open issues, and that may denote a directory, must record the resolved path it was opened with (both generations, with and
+    without the DIRECTORY flag, relative and absolute guest paths)"""
+    eps = W.entry_points(tu)
+    n = 0
+    for gen, f in sorted(eps['path_open'].items()):
+        for ofl in (0, O.OFLAGS.get('O_DIRECTORY', 2)):
+            def mk(it, st):
+                return [unk('instance'), 3, 0, unk('path', 'unsigned int'), 5, ofl, O.RIGHTS_FD_READ, 0, 0, unk('fdout', 'unsigned int')]
+            paths = W.explore_entry(tu, f['name'], mk, lambda: std_table(0), errno_value=5, max_paths=2000)
+            succ = [p for p in paths if p.ret == 0]
+            chk.require(succ, '%s/path_open has no success path' % gen)
+            for p in succ:
+                t = p.state['table']
+                inst = '%s/path_open[oflags=%d,%s]' % (gen, ofl, p.cond_text()[:60])
+                if not chk.expect(len(t) == 5, 'R14.7', inst + ':registered', 'path_open succeeds with %d table slots (expected one new)' % len(t),
+                                  'path_open:registers'):
+                    continue
+                n += 1
+                opens = [a for nm, a, l in p.events if nm == 'extern:open']
+                pth = t[4].get('path')
+                known_not_dir = any('S_ISDIR' in repr(c) or 'st_mode' in repr(c) for c, tk, _l in p.decisions) and ofl == 0
+                dup = is_sym(pth) and pth.op == 'call' and pth.args[0] in ('strdup', 'strndup', '__strdup', '__strndup')
+                same = dup and opens and any(repr(pe.strip_casts(x)) == repr(pe.strip_casts(opens[-1][0])) for x in pth.args[1:] if not isinstance(x, int))
+                chk.expect(bool(same) or known_not_dir, 'R14.7', inst + ':path-recorded',
+                           'path_open registers the new descriptor with path %r; expected a copy of the resolved path handed to open() - a directory '
+                           'opened this way could not serve as the base of later relative paths or be listed' % (pth,), 'path_open:descriptor-path')
+    chk.require(n >= 4, 'only %d path_open success paths analysed' % n)
+
+
 def check_readlink(chk, tu):
     """R14.6: path_readlink hands the guest buffer and its length to the host readlink and writes nothing else into guest memory
     (the host call does not terminate the string; a terminator written by the wrapper lands outside the buffer when the target fills it)"""
@@ -549,6 +582,8 @@ def run(chk):
     check_strcat_note(chk, tu)
     check_readlink(chk, tu)
     check_raw_guest_writes(chk, tu)
+    check_opened_descriptor_path(chk, tu)
+    chk.floor('R14.7', 8)
     chk.floor('R14.1', 40)
     chk.floor('R14.2', 8)
     chk.floor('R14.3', 4)
